@@ -133,13 +133,13 @@ Proof.
   - (* Stack.pcs *)
     destruct (capture_into_ok cs full o Hcl) as [s1 [E1 [P1 _]]].
     destruct (capture_into_ok cs full (alloc PStack 0) (clean_alloc PStack 0)) as [s2 [E2 [P2 _]]].
-    unfold facts, g_acquire. cbn [pname]. vm_compute lookup.
+    unfold facts, g_acquire. cbn [pname]. vm_compute (acq_kind _ _).
     cbn [gproj m_acquire]. rewrite E1, E2. change (String.eqb "pcs" "pcs") with true. cbv iota.
     rewrite P1, P2. reflexivity.
   - (* Stack.frames *)
     destruct (capture_into_ok cs full o Hcl) as [s1 [E1 [_ [F1 _]]]].
     destruct (capture_into_ok cs full (alloc PStack 0) (clean_alloc PStack 0)) as [s2 [E2 [_ [F2 _]]]].
-    unfold facts, g_acquire. cbn [pname]. vm_compute lookup.
+    unfold facts, g_acquire. cbn [pname]. vm_compute (acq_kind _ _).
     cbn [gproj m_acquire]. rewrite E1, E2.
     change (String.eqb "frames" "pcs") with false. change (String.eqb "frames" "frames") with true. cbv iota.
     rewrite F1, F2. reflexivity.
@@ -203,9 +203,10 @@ Proof.
   assert (Hh : hygienic (capacity (pname p)) (facts p) = true) by (destruct p; vm_compute; reflexivity).
   unfold hygienic in Hh. rewrite forallb_forall in Hh. specialize (Hh f Hf).
   unfold field_ok in Hh. rewrite Hacq in Hh. unfold g_release.
-  destruct (lookup f (ps_release (facts p))) as [[| |]|] eqn:Hrel.
+  destruct (lookup f (ps_release (facts p))) as [[| | |]|] eqn:Hrel.
   - apply orb_true_iff in Hh. destruct Hh as [Hn|Hm]; [symmetry; apply g_new_empty; exact Hn|apply mem_In in Hm; contradiction].
   - apply orb_true_iff in Hh. destruct Hh as [Hn|Hm]; [symmetry; apply g_new_empty; exact Hn|apply mem_In in Hm; contradiction].
+  - apply mem_In in Hh. contradiction.
   - apply mem_In in Hh. contradiction.
   - apply mem_In in Hh. contradiction.
 Qed.
@@ -218,19 +219,51 @@ Qed.
 
 (* the statement of the property's "hygiene" obligation, spelled out *)
 Lemma hygiene_fields : forall s, In s pool_facts -> forall f, In f (ps_fields s) ->
-  (exists k, lookup f (ps_acquire s) = Some k) \/
+  (exists k, lookup f (ps_acquire s) = Some k /\ k <> KDep) \/
   ((lookup f (ps_release s) = Some KZero \/ lookup f (ps_release s) = Some KTrunc) /\ new_visible_empty s f = true) \/
   In f (capacity (ps_name s)).
 Proof.
   intros s Hs f Hf. pose proof (hygiene_all s Hs) as H. unfold hygienic in H. rewrite forallb_forall in H.
   specialize (H f Hf). unfold field_ok in H.
-  destruct (lookup f (ps_acquire s)) as [k|]; [left; eexists; reflexivity|].
-  destruct (lookup f (ps_release s)) as [[| |]|].
+  destruct (acq_kind s f) as [k|] eqn:Hk; [left; exists k; apply acq_kind_some; exact Hk|].
+  destruct (lookup f (ps_release s)) as [[| | |]|].
   - apply orb_true_iff in H. destruct H as [H|H]; [right; left; auto|right; right; apply mem_In; exact H].
   - apply orb_true_iff in H. destruct H as [H|H]; [right; left; auto|right; right; apply mem_In; exact H].
+  - right; right; apply mem_In; exact H.
   - right; right; apply mem_In; exact H.
   - right; right; apply mem_In; exact H.
 Qed.
+
+(* every path through every Get (and every path to every Put) leaves each field in ONE state: no
+   assignment of the regenerated facts depends on the state the recycled object was left in.  In
+   particular every path through buffer.Pool.Get ends with the buffer truncated, every path through
+   getCheckedEntry with the entry reset. *)
+Definition no_path_dependence (s : pstruct) : bool :=
+  forallb (fun fk => match snd fk with KDep => false | _ => true end) (ps_acquire s ++ ps_release s).
+Lemma facts_path_independent : forallb no_path_dependence pool_facts = true.
+Proof. vm_compute. reflexivity. Qed.
+
+Lemma path_independent_fields : forall s, In s pool_facts -> forall f,
+  lookup f (ps_acquire s) <> Some KDep /\ lookup f (ps_release s) <> Some KDep.
+Proof.
+  intros s Hs f. pose proof facts_path_independent as H. rewrite forallb_forall in H.
+  specialize (H s Hs). unfold no_path_dependence in H. rewrite forallb_forall in H.
+  assert (G : forall l, (forall fk, In fk l -> match snd fk with KDep => false | _ => true end = true) ->
+                        lookup f l <> Some KDep).
+  { clear. induction l as [|[g k] l IH]; intros Hl; cbn [lookup]; [discriminate|].
+    destruct (String.eqb f g).
+    - intros E. injection E as ->. specialize (Hl (g, KDep) (or_introl eq_refl)). discriminate Hl.
+    - apply IH. intros fk Hin. apply Hl. right. exact Hin. }
+  split; apply G; intros fk Hin; apply H; apply in_or_app; [left|right]; exact Hin.
+Qed.
+
+(* what the buffer pool's Get does on every path, spelled out (the "reset on Get" mechanism) *)
+Lemma buffer_get_resets : lookup "bs" (ps_acquire (facts PBuf)) = Some KTrunc.
+Proof. vm_compute. reflexivity. Qed.
+Lemma checked_entry_get_resets :
+  map (fun f => lookup f (ps_acquire (facts PCE))) ["Entry"; "ErrorOutput"; "dirty"; "after"; "cores"] =
+  [Some KZero; Some KZero; Some KZero; Some KZero; Some KTrunc].
+Proof. vm_compute. reflexivity. Qed.
 
 Lemma model_matches_facts p :
   (forall i f, In f (ps_fields (facts p)) -> gproj p (alloc p i) f = g_new (facts p) f) /\
